@@ -9,13 +9,14 @@ import BromeliaVerif.Drv.Cfg
 import BromeliaVerif.Drv.Psm
 import BromeliaVerif.Drv.Ident
 import BromeliaVerif.Drv.Pend
+import BromeliaVerif.Drv.Outb
 /-! Line-protocol driver: one operation per input line, one answer per output line.
 Built as the native executable `driver`; imports models, specifications and generated tables only. -/
 open BV.Drv
 
 def step (line : String) : String :=
   let ws := (line.splitOn " ").filter (· ≠ "")
-  let handlers : List (List String → Option String) := [opC17, opC18, opC20, opCodec, opC02, opCmd, opCont, opRoute, opCfg, opPsm, opIdent, opPend]
+  let handlers : List (List String → Option String) := [opC17, opC18, opC20, opCodec, opC02, opCmd, opCont, opRoute, opCfg, opPsm, opIdent, opPend, opOutb]
   match handlers.findSome? (fun h => h ws) with
   | some r => r
   | none => "bad-op"
